@@ -17,21 +17,34 @@ theorem xbFlags_bits : ∀ font pal comp ice ext : Bool,
 
 /-- whatever `from_bytes` found at the end of the file, the XBin loader's start buffer has no rows, the DOS palette and
     the default font; everything else is overwritten from the header -/
-theorem xb_start (s : Option Sauce) : ∃ bw lw : Nat, ∃ bh lh : Int, ∃ im : IceMode,
-    (LBuf.start BinFmt.xbStartW BinFmt.xbStartH (BinFmt.xbClearsRows == 1)).setSauce s =
-      { bw := bw, bh := bh, lw := lw, lh := lh, lines := [], ice := im, pal := dosPalette, fonts := [(0, defaultFont)] } := by
+def sauceFonts0 (s : Option Sauce.Sauce) : List (Nat × Font) :=
+  match s with
+  | none => [(0, defaultFont)]
+  | some s' => startFonts s'
+
+theorem xb_start (s : Option Sauce.Sauce) : ∃ bw lw : Nat, ∃ bh lh : Int, ∃ im : IceMode,
+    (LBuf.start BinFmt.xbStartW BinFmt.xbStartH (BinFmt.xbClearsRows == 1)).setSauce true s =
+      { bw := bw, bh := bh, lw := lw, lh := lh, lines := [], ice := im, pal := dosPalette, fonts := sauceFonts0 s,
+        sauce := s.map metaOf } := by
   have hc : (BinFmt.xbClearsRows == 1) = true := by decide
   cases s with
-  | none => exact ⟨_, _, _, _, _, by unfold LBuf.setSauce LBuf.start; simp only [hc, if_true]; rfl⟩
-  | some s => exact ⟨_, _, _, _, _, by unfold LBuf.setSauce LBuf.start; simp only [hc, if_true]; rfl⟩
+  | none => exact ⟨_, _, _, _, _, by rw [hc, start_setSauce_none]; rfl⟩
+  | some s =>
+    refine ⟨if s.width = 0 ∨ s.width > BinFmt.sauceMaxWidth then BinFmt.sauceFallbackWidth else s.width,
+      if s.width = 0 ∨ s.width > BinFmt.sauceMaxWidth then BinFmt.sauceFallbackWidth else s.width, s.height, s.height,
+      if s.ice then .ice else .unlimited, ?_⟩
+    unfold LBuf.setSauce LBuf.start sauceFonts0 startFonts
+    simp only [hc, if_true, Option.map_some]
+    cases s.font.bind sauceFontByName <;> rfl
 
 /-- the buffer the image data is placed into -/
-def xbBase (w h fh : Nat) (fontF palF ice ext : Bool) (palB f0d f1d : List Nat) : LBuf :=
+def xbBase (w h fh : Nat) (fontF palF ice ext : Bool) (palB f0d f1d : List Nat) (fs0 : List (Nat × Font)) (m : Option Sauce.Meta) : LBuf :=
   { bw := w, bh := (h : Int), lw := w, lh := (h : Int), lines := [], ice := if ice then .ice else .blink,
     pal := if palF then from63 palB else dosPalette,
-    fonts := if fontF then (if ext then [(0, mkFont fh f0d), (1, mkFont fh f1d)] else [(0, mkFont fh f0d)]) else [(0, defaultFont)] }
+    fonts := if fontF then (if ext then [(0, mkFont fh f0d), (1, mkFont fh f1d)] else [(0, mkFont fh f0d)]) else fs0,
+    sauce := m }
 
-theorem xb_load (s : Option Sauce) (w h fh : Nat) (fontF palF comp ice ext : Bool) (palB f0d f1d img : List Nat)
+theorem xb_load (s : Option Sauce.Sauce) (w h fh : Nat) (fontF palF comp ice ext : Bool) (palB f0d f1d img : List Nat)
     (hw1 : 1 ≤ w) (hw2 : w ≤ 4096) (hh : h ≤ 65535) (hfh1 : 1 ≤ fh) (hfh2 : fh ≤ 32)
     (hpalB : palB.length = 48) (hf0 : f0d.length = fh * 256) (hf1 : f1d.length = fh * 256) (hext : ext = true → fontF = true) :
     xbLoad (88 :: 66 :: 73 :: 78 :: 0x1A :: (w % 256) :: ((w / 256) % 256) :: (h % 256) :: ((h / 256) % 256) :: (fh % 256) ::
@@ -39,7 +52,8 @@ theorem xb_load (s : Option Sauce) (w h fh : Nat) (fontF palF comp ice ext : Boo
         ((if palF then palB else []) ++ ((if fontF then f0d else []) ++ ((if ext then f1d else []) ++ img)))) s =
       match (if comp then readCompressed img else some (readUncompressed img)) with
       | none => .panic
-      | some ps => .ok (placeAll false false 0 (w - 1) (xbBase w h fh fontF palF ice ext palB f0d f1d) 0 0 (ps.map (decodeChar ice ext))).1.crop := by
+      | some ps => .ok (placeAll false false 0 (w - 1) (xbBase w h fh fontF palF ice ext palB f0d f1d (sauceFonts0 s) (s.map metaOf)) 0 0
+          (ps.map (decodeChar ice ext))).1.crop := by
   obtain ⟨bw0, lw0, bh0, lh0, im0, hst⟩ := xb_start s
   obtain ⟨b1, b2, b3, b4, b5⟩ := xbFlags_bits fontF palF comp ice ext
   have ew : w % 256 + (w / 256) % 256 * 256 = w := by omega
@@ -47,7 +61,7 @@ theorem xb_load (s : Option Sauce) (w h fh : Nat) (fontF palF comp ice ext : Boo
   have efh : fh % 256 = fh := by omega
   have efh0 : ¬ (fh = 0) := by omega
   have hpl : Xb.paletteLength = 48 := rfl
-  unfold xbLoad
+  unfold xbLoad xbBlocks xbImage
   rw [hst]
   simp only [bne_self_eq_false, Bool.false_eq_true, if_false, ew, eh, efh, efh0, b1, b2, b3, b4, b5]
   have c1 : ¬ (w < 1 ∨ w > 4096) := by omega
